@@ -108,7 +108,7 @@ class FinalFeedback:
             for fields in list_of_fields:
                 # Do any of them not match?
                 for field, value in fields.items():
-                    if feedback['fields'].get(field, None) != value:
+                    if feedback.fields.get(field, None) != value:
                         break
                 else:
                     return
